@@ -236,6 +236,8 @@ def search_with_urls(contract, seed_inputs, budget, seed):
         for combo in itertools.product(*alts):
             cand = dict(zip(names, combo))
             tried += 1
+            if tried % 64 == 0 and _late():
+                return None, None, tried
             try:
                 j = judge(contract, cand)
             except Exception:
@@ -265,7 +267,33 @@ def own_literals(contract):
     return out
 
 
+SEARCH_WALL_S = 20.0        # per failing obligation
+_SPENT = {}                 # function -> seconds already spent searching (cap 45 s per function)
+
+
 def search(contract, seed_inputs, budget=60000, seed=0):
+    import time as _t
+    spent = _SPENT.get(contract.qual, 0.0)
+    if spent > 45.0:
+        return None, None, 0
+    t0 = _t.time()
+    global _DEADLINE
+    _DEADLINE = t0 + SEARCH_WALL_S
+    try:
+        return _search(contract, seed_inputs, budget, seed)
+    finally:
+        _SPENT[contract.qual] = spent + (_t.time() - t0)
+
+
+_DEADLINE = None
+
+
+def _late():
+    import time as _t
+    return _DEADLINE is not None and _t.time() > _DEADLINE
+
+
+def _search(contract, seed_inputs, budget=60000, seed=0):
     if any(isinstance(v, dict) and "__url__" in v for v in seed_inputs.values()):
         return search_with_urls(contract, seed_inputs, budget, seed)
     """Fallback when the solver's model does not reproduce natively (library functions are
@@ -281,6 +309,11 @@ def search(contract, seed_inputs, budget=60000, seed=0):
     def attempt(cand):
         nonlocal tried
         tried += 1
+        if tried % 64 == 0 and _late():
+            tried = budget + 1          # wall-clock budget used up: every loop below stops
+            return None
+        if tried > budget:
+            return None
         j = judge(contract, cand)
         return j if (j["in_pre"] and not j["agrees"]) else None
     # 1. mutations of the model
